@@ -52,6 +52,7 @@ def run(ctx) -> None:
     ctx.reuse("C13.mask", c10.slots)
     ctx.reuse("C13.mask", c10.evo_member_conversion)
     ctx.reuse("C13.mask", c10.any_rules)
+    ctx.reuse("C13.mask", c10.int_map)
     ctx.guard("C13.siblings", siblings)
     ctx.guard("C13.selection-array", selection_array)
     from .common import memo_rule
@@ -527,6 +528,31 @@ def asp_template(ctx, name: str) -> None:
     w = f.where(rn.ast)
     parts = template_parts(rn.value)
     cmd = "Aspirate" if name == "evo_aspirate" else "Dispense"
+    # the twelve volume slots may be written as ",".join(<list of 12 entries>) followed by "," instead of the string of the 8
+    # LiHa slots followed by the literal "0,0,0,0,": both spellings are brought to the second one
+    norm_parts = []
+    for i_, p_ in enumerate(parts):
+        if isinstance(p_, Hole) and isinstance(p_.expr, ast.Call) and call_fname(p_.expr) == "join" and isinstance(p_.expr.func, ast.Attribute) and isinstance(p_.expr.func.value, ast.Constant) \
+                and p_.expr.func.value.value == "," and len(p_.expr.args) == 1 and isinstance(p_.expr.args[0], ast.Name) and i_ + 1 < len(parts) and isinstance(parts[i_ + 1], str) and parts[i_ + 1].startswith(","):
+            init, iat = fv.def_expr(p_.expr.args[0], rn.id)
+            k_ = None
+            if isinstance(init, ast.BinOp) and isinstance(init.op, ast.Mult):
+                for a_, b_ in ((init.left, init.right), (init.right, init.left)):
+                    if isinstance(a_, ast.List) and len(a_.elts) == 1 and isinstance(a_.elts[0], ast.Constant) and str(a_.elts[0].value) == "0":
+                        kb = fv.res.resolve(b_, iat)
+                        k_ = kb.value if isinstance(kb, ast.Constant) and isinstance(kb.value, int) else None
+            if k_ == 12:
+                norm_parts.append(p_)
+                norm_parts.append("0,0,0,0")
+                continue
+        norm_parts.append(p_)
+    merged = []
+    for p_ in norm_parts:
+        if isinstance(p_, str) and merged and isinstance(merged[-1], str):
+            merged[-1] += p_
+        else:
+            merged.append(p_)
+    parts = merged
     sk = _skeleton(parts)
     ctx.rep.check(sk == ASP_SKELETON % cmd, rule, f"{f.qualname}/skeleton", f"command skeleton is B;{cmd}(mask,\"lc\",<8 slots>0,0,0,0,grid,site,1,\"selection\",0,arm);",
                   f"command skeleton is `{sk.replace(chr(0), '{}')}`; EVOware expects `{(ASP_SKELETON % cmd).replace(chr(0), '{}')}`", where=w)
